@@ -77,6 +77,74 @@ def to_slices(pre):
     return tuple(slice(None) if w is None else slice(w[0], w[1]) for w in pre)
 
 
+L0_PREFIX, L1_PREFIX, BOGUS_PREFIX = 'cb-sdp-l0', 'cb-sdp-l1-flags', 'cb-bogus'
+
+
+def make_telstate(case, info):
+    """The telstate of a case.  case['layout']: None = every chunk_info entry carries 'prefix' (no chunk_name anywhere);
+    'legacy' = no entry carries 'prefix', chunk_name sits in the <cbid>_<stream> namespace of the stream that owns the
+    chunk_info (L0 and flags stream); 'mixed' = the L0 entries carry 'prefix' AND the L0 namespace holds a chunk_name
+    that points elsewhere, the flags stream is legacy.  case['others']: further archived streams (a cal stream, a flags
+    stream of another L0 stream whose chunk_info points elsewhere) before / after the attached flags stream."""
+    layout = case.get('layout')
+    ts = katsdptelstate.TelescopeState()
+    cbid, stream, l1name = 'cb', 'sdp_l0', 'sdp_l1_flags'
+    cs = ts.view(ts.join(cbid, stream))
+    sv = ts.view(stream)
+
+    def entry(v, explicit):
+        e = dict(v)
+        if not explicit:
+            e.pop('prefix', None)
+        return e
+    l0_info = {k: entry(v, layout != 'legacy') for k, v in info.items() if not (k == 'flags' and case.get('l1'))}
+    if case.get('l1'):
+        # the L0 stream still describes its own flags array (never written, or a decoy): it is replaced by the upgrade
+        l0_info['flags'] = entry(dict(info['weights'], dtype=info['flags']['dtype']), layout != 'legacy')
+    cs['chunk_info'] = l0_info
+    if layout == 'legacy':
+        cs['chunk_name'] = L0_PREFIX
+    elif layout == 'mixed':
+        cs['chunk_name'] = BOGUS_PREFIX
+    cs['first_timestamp'] = 10.0
+    sv['sync_time'] = 1600000000.0
+    sv['int_time'] = 2.0
+    sv['bls_ordering'] = np.array([('m000h', 'm000h')] * case['B'])
+    sv['need_weights_power_scale'] = False
+    sv['stream_type'] = 'sdp.vis'
+    archived = [stream]
+    others = case.get('others') or []
+    if 'before' in others:
+        archived += ['sdp_cal', 'sdp_l1_flags_other']
+    if case.get('l1'):
+        l1cs = ts.view(ts.join(cbid, l1name))
+        l1s = ts.view(l1name)
+        l1cs['chunk_info'] = {'flags': entry(info['flags'], layout is None)}
+        if layout is not None:
+            l1cs['chunk_name'] = L1_PREFIX
+        l1s['stream_type'] = 'sdp.flags'
+        l1s['src_streams'] = [stream]
+        archived.append(l1name)
+    if 'after' in others:
+        archived += ['sdp_cal', 'sdp_l1_flags_other']
+    if others:
+        ts.view('sdp_cal')['stream_type'] = 'sdp.cal'
+        ox = ts.view('sdp_l1_flags_other')
+        ox['stream_type'] = 'sdp.flags'
+        ox['src_streams'] = ['sdp_l0_other']
+        ts.view(ts.join(cbid, 'sdp_l1_flags_other'))['chunk_info'] = {'flags': dict(info['flags'], prefix=BOGUS_PREFIX)}
+    ts['sdp_archived_streams'] = archived
+    return view_l0_capture_stream(ts, cbid, stream)
+
+
+def write_decoy(case, store):
+    """The L0 stream's own flags array (which the attached flags stream replaces), with other values."""
+    if case.get('l1') and case.get('decoy') and case['nd']['weights'] > 0:
+        rs = np.random.RandomState(case.get('seed', 0) + 17)
+        decoy = rs.randint(0, 256, (case['nd']['weights'], case['F'], case['B'])).astype(np.uint8)
+        write_array(store, L0_PREFIX, 'flags', decoy, case['chunks']['weights'], [])
+
+
 def build_store(case, tmp):
     vals = make_values(case)
     store = NpyFileChunkStore(tmp)
@@ -86,6 +154,7 @@ def build_store(case, tmp):
     for name in ARRAYS:
         prefix = l1 if (name == 'flags' and case.get('l1')) else l0
         info[name] = write_array(store, prefix, name, vals[name], case['chunks'][name], case['lost'].get(name, []))
+    write_decoy(case, store)
     return store, info, vals
 
 
@@ -98,31 +167,7 @@ def open_vfw(case, tmp):
 
 def open_source(case, tmp):
     store, info, vals = build_store(case, tmp)
-    ts = katsdptelstate.TelescopeState()
-    cbid, stream, l1name = 'cb', 'sdp_l0', 'sdp_l1_flags'
-    cs = ts.view(ts.join(cbid, stream))
-    sv = ts.view(stream)
-    l0_info = {k: v for k, v in info.items() if not (k == 'flags' and case.get('l1'))}
-    if case.get('l1'):
-        # the L0 stream still describes its own (never written) flags array: it is replaced by the upgrade
-        l0_info['flags'] = dict(info['weights'], dtype=info['flags']['dtype'])
-    cs['chunk_info'] = l0_info
-    cs['first_timestamp'] = 10.0
-    sv['sync_time'] = 1600000000.0
-    sv['int_time'] = 2.0
-    sv['bls_ordering'] = np.array([('m000h', 'm000h')] * case['B'])
-    sv['need_weights_power_scale'] = False
-    sv['stream_type'] = 'sdp.vis'
-    archived = [stream]
-    if case.get('l1'):
-        l1cs = ts.view(ts.join(cbid, l1name))
-        l1s = ts.view(l1name)
-        l1cs['chunk_info'] = {'flags': info['flags']}
-        l1s['stream_type'] = 'sdp.flags'
-        l1s['src_streams'] = [stream]
-        archived.append(l1name)
-    ts['sdp_archived_streams'] = archived
-    view, cbid_, sn = view_l0_capture_stream(ts, cbid, stream)
+    view, cbid_, sn = make_telstate(case, info)
     pre = {}
     raw = case['pre']
     if len(raw) > 0 and raw[0] is not None:
@@ -236,6 +281,7 @@ class History:
             for idx in all_chunk_indices(chunks):
                 if tuple(int(i) for i in idx) not in absent:
                     self.put(name, idx, 0)
+        write_decoy(case, self.writer)
         self.ts = None
 
     def values(self, ver):
@@ -260,31 +306,7 @@ class History:
         self.ops.append([0, ARRAYS.index(name), self.ident(name, idx)])
 
     def telstate(self):
-        case, info = self.case, self.info
-        ts = katsdptelstate.TelescopeState()
-        cbid, stream, l1name = 'cb', 'sdp_l0', 'sdp_l1_flags'
-        cs = ts.view(ts.join(cbid, stream))
-        sv = ts.view(stream)
-        l0_info = {k: dict(v) for k, v in info.items() if not (k == 'flags' and case.get('l1'))}
-        if case.get('l1'):
-            l0_info['flags'] = dict(info['weights'], dtype=info['flags']['dtype'])
-        cs['chunk_info'] = l0_info
-        cs['first_timestamp'] = 10.0
-        sv['sync_time'] = 1600000000.0
-        sv['int_time'] = 2.0
-        sv['bls_ordering'] = np.array([('m000h', 'm000h')] * case['B'])
-        sv['need_weights_power_scale'] = False
-        sv['stream_type'] = 'sdp.vis'
-        archived = [stream]
-        if case.get('l1'):
-            l1cs = ts.view(ts.join(cbid, l1name))
-            l1s = ts.view(l1name)
-            l1cs['chunk_info'] = {'flags': dict(info['flags'])}
-            l1s['stream_type'] = 'sdp.flags'
-            l1s['src_streams'] = [stream]
-            archived.append(l1name)
-        ts['sdp_archived_streams'] = archived
-        return view_l0_capture_stream(ts, cbid, stream)
+        return make_telstate(self.case, {k: dict(v) for k, v in self.info.items()})
 
     def load(self, index):
         """Returns (dict(vis, weights, flags), preselect_index as katdal holds it) through the reader store."""
